@@ -172,3 +172,249 @@ pub fn eintr_storm_cases(dir: &std::path::Path, rng: &mut Rng, rep: &mut Report,
         libc::signal(libc::SIGUSR2, libc::SIG_IGN);
     }
 }
+
+// ------------------------------------------------------------------------------------------------
+// A file that delivers some bytes and then fails: the slave side of a pseudo-terminal in raw mode.
+// After the bytes written to the master have been consumed the master is closed, and the next read
+// on the slave fails with EIO. "Any other error is returned to the caller, after which the hasher
+// reflects exactly the bytes yielded before the error" - also through the path-based entry points.
+// ------------------------------------------------------------------------------------------------
+pub fn pty_fault_cases(rng: &mut Rng, rep: &mut Report) {
+    let mode = specmodel::Mode::Hash;
+    for entry in 0..3 {
+        let name = ["update_reader(File)", "update_mmap", "update_mmap_rayon"][entry];
+        let (mut master, mut slave) = (0 as libc::c_int, 0 as libc::c_int);
+        let mut namebuf = [0 as libc::c_char; 128];
+        if unsafe { libc::openpty(&mut master, &mut slave, namebuf.as_mut_ptr(), core::ptr::null_mut(), core::ptr::null_mut()) } != 0 {
+            rep.inconclusive.push("pty fault case skipped: openpty failed".into());
+            return;
+        }
+        unsafe {
+            let mut t: libc::termios = core::mem::zeroed();
+            libc::tcgetattr(slave, &mut t);
+            libc::cfmakeraw(&mut t);
+            libc::tcsetattr(slave, libc::TCSANOW, &t);
+        }
+        let path = unsafe { std::ffi::CStr::from_ptr(namebuf.as_ptr()) }.to_string_lossy().into_owned();
+        let n = 1 + rng.usize_below(3000);
+        let payload = rng.bytes(n);
+        let wrote = unsafe { libc::write(master, payload.as_ptr() as *const _, n) };
+        if wrote != n as isize {
+            rep.inconclusive.push("pty fault case skipped: short write to the pty master".into());
+            unsafe {
+                libc::close(master);
+                libc::close(slave);
+            }
+            continue;
+        }
+        // close the master once the reader has drained the input queue
+        let ready = std::sync::Arc::new(AtomicBool::new(false));
+        let ready2 = ready.clone();
+        let closer = std::thread::spawn(move || {
+            let ready = ready2;
+            let t0 = std::time::Instant::now();
+            // the bytes reach the slave's input queue asynchronously (line-discipline worker):
+            // first wait until they are all there, then until the reader has taken them
+            let mut arrived = false;
+            loop {
+                let mut pending: libc::c_int = 0;
+                unsafe { libc::ioctl(slave, libc::FIONREAD, &mut pending) };
+                if !arrived {
+                    if pending as usize == n {
+                        arrived = true;
+                        ready.store(true, Ordering::SeqCst);
+                    } else if t0.elapsed().as_secs() > 20 {
+                        ready.store(true, Ordering::SeqCst);
+                        unsafe { libc::close(master) };
+                        break -1;
+                    }
+                    std::thread::sleep(std::time::Duration::from_millis(1));
+                    continue;
+                }
+                if pending == 0 || t0.elapsed().as_secs() > 40 {
+                    // drained (or giving up): hang up, the reader's next read fails with EIO
+                    unsafe { libc::close(master) };
+                    break pending;
+                }
+                std::thread::sleep(std::time::Duration::from_millis(2));
+            }
+        });
+        let bl = rng.usize_below(200);
+        let before_prefix = rng.bytes(bl);
+        while !ready.load(Ordering::SeqCst) {
+            std::thread::sleep(std::time::Duration::from_millis(1));
+        }
+        let r = guarded(|| {
+            let mut h = api::hasher_for(&mode);
+            h.update(&before_prefix);
+            // the reader thread below blocks in read(); the closer thread closes the master
+            let res = match entry {
+                0 => match std::fs::File::open(&path) {
+                    Ok(f) => h.update_reader(f).map(|_| ()),
+                    Err(e) => Err(e),
+                },
+                1 => h.update_mmap(&path).map(|_| ()),
+                _ => h.update_mmap_rayon(&path).map(|_| ()),
+            };
+            (res.map_err(|e| format!("{:?}", e.kind())), h.count(), *h.finalize().as_bytes())
+        });
+        let pending = closer.join().unwrap_or(1);
+        unsafe {
+            libc::close(slave);
+        }
+        rep.eval(format!("special/pty-eio/{}", name));
+        match r {
+            Ok((res, count, digest)) => {
+                let mut all = before_prefix.clone();
+                all.extend_from_slice(&payload);
+                let want = specmodel::hash(&mode, &all);
+                if pending != 0 {
+                    rep.inconclusive.push(format!("pty fault case ({}): the input queue was never drained", name));
+                } else if res.is_ok() {
+                    rep.violation("C11/special/pty-eio/error-swallowed", format!("{} on a pty slave whose master was closed after {} bytes returned Ok", name, n), vec!["c11".into(), "--files-only".into(), "1".into()]);
+                } else if count != all.len() as u64 || digest != want {
+                    rep.violation(format!("C11/special/pty-eio/{}/state-after-error", name), format!("{} on a file that yielded {} bytes and then failed with {:?}: afterwards count() = {} (expected {} = {} before the call + {} yielded) and finalize() = {} (the bytes absorbed hash to {})", name, n, res, count, all.len(), before_prefix.len(), n, hex(&digest), hex(&want)), vec!["c11".into(), "--files-only".into(), "1".into()]);
+                }
+            }
+            Err(p) => rep.violation("C11/special/pty-eio/panic", format!("{}: {}", name, p), vec!["c11".into(), "--files-only".into(), "1".into()]),
+        }
+    }
+}
+
+// ------------------------------------------------------------------------------------------------
+// Environments of the *process*: another user (files readable but owned by someone else, no
+// CAP_FOWNER) and an address-space limit under which mmap() of a large file fails with ENOMEM.
+// The hashing runs in a child (`mon c11 --child <kind> --paths a,b,..`) that prints its results.
+// ------------------------------------------------------------------------------------------------
+pub fn child_main(kind: &str, paths: &str, three_way: impl Fn(&std::path::Path, &specmodel::Mode) -> R3) -> ! {
+    if kind == "aslimit" {
+        let lim = libc::rlimit { rlim_cur: 900 << 20, rlim_max: 900 << 20 };
+        if unsafe { libc::setrlimit(libc::RLIMIT_AS, &lim) } != 0 {
+            println!("CHILD-ERROR setrlimit failed");
+            std::process::exit(0);
+        }
+    }
+    println!("CHILD uid={} kind={}", unsafe { libc::geteuid() }, kind);
+    for p in paths.split(',').filter(|p| !p.is_empty()) {
+        let (a, b, c) = three_way(std::path::Path::new(p), &specmodel::Mode::Hash);
+        let f = |r: Result<[u8; 32], String>| match r {
+            Ok(h) => hex(&h),
+            Err(e) => format!("ERR:{}", e.replace(char::is_whitespace, "_")),
+        };
+        println!("RES {} {} {} {}", p, f(a), f(b), f(c));
+    }
+    std::process::exit(0)
+}
+
+fn wrong_entries(got: Option<&Vec<String>>, want: &str) -> String {
+    let names = ["update_mmap", "update_mmap_rayon", "update_reader"];
+    match got {
+        Some(v) => names.iter().zip(v.iter()).filter(|(_, x)| x.as_str() != want).map(|(n, _)| *n).collect::<Vec<_>>().join("+"),
+        None => "no-result".into(),
+    }
+}
+
+fn run_child(kind: &str, paths: &[std::path::PathBuf], as_nobody: bool) -> Result<std::collections::HashMap<String, Vec<String>>, String> {
+    use std::os::unix::process::CommandExt;
+    let exe = std::env::current_exe().map_err(|e| e.to_string())?;
+    let list: Vec<String> = paths.iter().map(|p| p.to_string_lossy().into_owned()).collect();
+    let mut cmd = std::process::Command::new(exe);
+    cmd.args(["c11", "--child", kind, "--paths", &list.join(","), "--threads", "1"]);
+    cmd.env("RAYON_NUM_THREADS", "4");
+    if as_nobody {
+        cmd.uid(65534).gid(65534);
+    }
+    let out = cmd.output().map_err(|e| format!("cannot start the child: {}", e))?;
+    let text = String::from_utf8_lossy(&out.stdout).into_owned();
+    if !text.contains("CHILD uid=") || text.contains("CHILD-ERROR") {
+        return Err(format!("child did not run as intended (status {:?}): {} {}", out.status.code(), text.chars().take(200).collect::<String>(), String::from_utf8_lossy(&out.stderr).chars().take(200).collect::<String>()));
+    }
+    if as_nobody && !text.contains("CHILD uid=65534") {
+        return Err("child did not drop privileges".into());
+    }
+    let mut m = std::collections::HashMap::new();
+    for line in text.lines() {
+        let f: Vec<&str> = line.split(' ').collect();
+        if f.len() == 5 && f[0] == "RES" {
+            m.insert(f[1].to_string(), vec![f[2].to_string(), f[3].to_string(), f[4].to_string()]);
+        }
+    }
+    Ok(m)
+}
+
+pub fn other_user_case(rng: &mut Rng, rep: &mut Report) {
+    use std::os::unix::fs::PermissionsExt;
+    if unsafe { libc::geteuid() } != 0 {
+        rep.inconclusive.push("other-user case skipped: not running as root, cannot switch to another user".into());
+        return;
+    }
+    // world-readable files owned by root in a world-searchable directory
+    let dir = std::path::PathBuf::from(format!("/tmp/verif-c11-pub-{}", std::process::id()));
+    let _ = std::fs::create_dir_all(&dir);
+    let _ = std::fs::set_permissions(&dir, std::fs::Permissions::from_mode(0o755));
+    let mut files = Vec::new();
+    let mut wants = Vec::new();
+    for (i, n) in [100usize, 16383, 16384, 16385, 70_000, 300_000].iter().enumerate() {
+        let p = dir.join(format!("owned-by-root-{}", i));
+        let data = rng.bytes(*n);
+        std::fs::write(&p, &data).expect("scratch write");
+        let _ = std::fs::set_permissions(&p, std::fs::Permissions::from_mode(0o644));
+        wants.push(specmodel::hash(&specmodel::Mode::Hash, &data));
+        files.push(p);
+    }
+    match run_child("unpriv", &files, true) {
+        Err(e) => rep.inconclusive.push(format!("other-user case: {}", e)),
+        Ok(res) => {
+            for (p, want) in files.iter().zip(&wants) {
+                rep.eval(format!("special/other-user/{}", p.file_name().unwrap().to_string_lossy()));
+                let got = res.get(&p.to_string_lossy().into_owned());
+                let w = hex(want);
+                match got {
+                    Some(v) if v.iter().all(|x| *x == w) => {}
+                    other => rep.violation(format!("C11/special/other-user/{}", wrong_entries(other, &w)), format!("a world-readable file owned by root, hashed by uid 65534: [update_mmap, update_mmap_rayon, update_reader(File)] = {:?}, the bytes hash to {}", other, w), vec!["c11".into(), "--files-only".into(), "1".into()]),
+                }
+            }
+        }
+    }
+    let _ = std::fs::remove_dir_all(&dir);
+}
+
+pub fn address_space_limit_case(dir: &std::path::Path, rng: &mut Rng, rep: &mut Report) {
+    // sparse files larger than the child's 900 MiB address-space limit (mmap fails with ENOMEM
+    // there), of sizes that are and are not multiples of anything convenient
+    let sizes = [(1usize << 30) + 5, (1usize << 30) + (1 << 20) * (1 + rng.usize_below(200)) + 4096, (3usize << 29) + 1 + rng.usize_below(60_000)];
+    let mut files = Vec::new();
+    let mut wants = Vec::new();
+    for (i, n) in sizes.iter().enumerate() {
+        let p = dir.join(format!("sparse{}", i));
+        let f = std::fs::OpenOptions::new().write(true).create(true).truncate(true).open(&p).expect("scratch file");
+        // a few marker bytes near both ends and in the middle, otherwise a hole
+        use std::os::unix::fs::FileExt;
+        let mut data = vec![0u8; *n];
+        for &at in &[0usize, n / 2, n - 20_000, n - 70] {
+            let m = rng.bytes(64);
+            let _ = f.write_all_at(&m, at as u64);
+            data[at..at + 64].copy_from_slice(&m);
+        }
+        f.set_len(*n as u64).expect("set_len");
+        wants.push(crate::huge::model_root(&specmodel::Mode::Hash, &data).root_hash());
+        files.push(p);
+    }
+    match run_child("aslimit", &files, false) {
+        Err(e) => rep.inconclusive.push(format!("address-space-limit case: {}", e)),
+        Ok(res) => {
+            for ((p, want), n) in files.iter().zip(&wants).zip(&sizes) {
+                rep.eval(format!("special/address-space-limit/{}", n));
+                let got = res.get(&p.to_string_lossy().into_owned());
+                let w = hex(want);
+                match got {
+                    Some(v) if v.iter().all(|x| *x == w) => {}
+                    other => rep.violation(format!("C11/special/address-space-limit/{}", wrong_entries(other, &w)), format!("a sparse {}-byte file hashed by a process whose address space is limited to 900 MiB (mmap fails with ENOMEM): [update_mmap, update_mmap_rayon, update_reader(File)] = {:?}, the bytes hash to {}", n, other, w), vec!["c11".into(), "--files-only".into(), "1".into()]),
+                }
+            }
+        }
+    }
+    for p in files {
+        let _ = std::fs::remove_file(p);
+    }
+}
